@@ -2,3 +2,4 @@ import CdiProofs.Props.C07
 import CdiProofs.Props.C15
 import CdiProofs.Props.C16
 import CdiProofs.Props.C06
+import CdiProofs.Props.C05
